@@ -82,39 +82,46 @@ func runC14(c *Ctx) {
 	cliTab := map[string]string{}
 
 	if f := p.Func(pkgClient, "transformLabelQuery"); c.NeedFunc("R14.1", f, "client.transformLabelQuery") {
-		lits := Find(f, func(in ssa.Instruction) bool {
-			al, ok := in.(*ssa.Alloc)
-			if !ok || al.Comment != "complit" {
-				return false
+		// (independent of where the LabelTerm literal is built: what counts is the Op / Key / Value / Invert in effect
+		// when the term is appended to the wire query)
+		opStore := StoreToField("LabelTerm", "Op")
+		sink := func(in ssa.Instruction) bool {
+			call, ok := in.(*ssa.Call)
+
+			return ok && p.CalleeName(call) == "builtin.append" && Glob("*.Terms", p.ArgDesc(call, 0))
+		}
+		fieldFrom := func(fld string) InstrPred {
+			return func(in ssa.Instruction) bool {
+				return StoreToField("LabelTerm", fld)(in) && Glob("*."+fld, p.Desc(in.(*ssa.Store).Val))
+			}
+		}
+
+		cliTab = p.CaseFieldTable(f, func(v string) string { return "eq(*.Op,const:" + v + ")" }, labelOps, wireOps,
+			func(val string) InstrPred {
+				return func(in ssa.Instruction) bool { return opStore(in) && p.Desc(in.(*ssa.Store).Val) == "const:"+val }
+			}, opStore, sink, "0")
+
+		for name, val := range labelOps {
+			if _, ok := cliTab[name]; !ok {
+				continue
 			}
 
-			n, ok := al.Type().(*types.Pointer).Elem().(*types.Named)
+			starts := p.EdgeSuccs(f, "eq(*.Op,const:"+val+")")
+			okF := true
 
-			return ok && n.Obj().Name() == "LabelTerm" && strings.HasSuffix(n.Obj().Pkg().Path(), pkgAPI)
-		})
-
-		for _, in := range lits {
-			al := in.(*ssa.Alloc)
-			fields := allocFields(al)
-			wop := "0"
-
-			if v, ok := fields["Op"]; ok {
-				wop = strings.TrimPrefix(p.Desc(v), "const:")
-			}
-
-			// which LabelOp case is this literal in?
-			for name, val := range labelOps {
-				if bad, _ := p.Reach(Entry(f), func(i ssa.Instruction) bool { return i == in }, CutSpec{Edges: FactEdge("eq(*.Op,const:" + val + ")")}); !bad {
-					cliTab[name] = wop
-					// Key / Value / Invert cross
-					okF := Glob("*.Key", p.Desc(fields["Key"])) && Glob("*.Invert", p.Desc(fields["Invert"]))
-					if name != "LabelOpExists" {
-						okF = okF && Glob("*.Value", p.Desc(fields["Value"]))
-					}
-
-					c.Check(okF, "R14.1", "client.transformLabelQuery :: "+name+" carries Key, Value and Invert of the term", al.Pos(), "yes", "fields: Key="+p.Desc(fields["Key"])+" Value="+p.Desc(fields["Value"])+" Invert="+p.Desc(fields["Invert"]))
+			for _, fld := range []string{"Key", "Invert"} {
+				if bad, _ := p.Reach(Entry(f), sink, CutSpec{Nodes: fieldFrom(fld)}); bad {
+					okF = false
 				}
 			}
+
+			if name != "LabelOpExists" {
+				if bad, _ := p.Reach(starts, sink, CutSpec{Nodes: fieldFrom("Value"), TrackEq: true}); bad {
+					okF = false
+				}
+			}
+
+			c.Check(okF, "R14.1", "client.transformLabelQuery :: "+name+" carries Key, Value and Invert of the term", fpos(f), "yes", "the appended wire term does not carry the term's Key / Value / Invert on every path")
 		}
 
 		c.Check(len(cliTab) == len(labelOps), "R14.1", "client.transformLabelQuery :: exhaustive over LabelOp", fpos(f), fmt.Sprintf("%d rows", len(cliTab)), fmt.Sprintf("%d of %d operators translated", len(cliTab), len(labelOps)))
@@ -304,7 +311,7 @@ func runC14(c *Ctx) {
 
 	if f := p.Method(pkgInmem, "ResourceCollection", "WatchAll"); c.NeedFunc("R14.2", f, collT+".WatchAll") {
 		matcher = ClosureWith(f, p.CallTo("(pkg/resource.LabelQueries).Matches"))
-		checkMatcher(matcher, "WatchAll matcher closure", "*free:var:options.IDQuery", "*free:var:options.LabelQueries")
+		checkMatcher(matcher, "WatchAll matcher closure", "*free:var:pkg/state.*Options.IDQuery", "*free:var:pkg/state.*Options.LabelQueries")
 
 		// every filtering decision in WatchAll (bootstrap list and live events) calls that closure
 		n := 0
@@ -333,13 +340,13 @@ func runC14(c *Ctx) {
 		c.MustCut("R14.2", "bootstrapList append ⊣ {matches(item)}", f, func(in ssa.Instruction) bool {
 			call, ok := in.(*ssa.Call)
 
-			return ok && p.CalleeName(call) == "builtin.append" && Glob("*var:bootstrapList", p.Desc(call.Call.Args[0]))
+			return ok && p.CalleeName(call) == "builtin.append" && Glob("*var:[]pkg/resource.Resource", p.Desc(call.Call.Args[0]))
 		}, CutSpec{Edges: func(e EdgeInfo) bool { return strings.HasPrefix(e.Facts[0], "true(call:") && strings.Contains(e.Facts[0], "WatchAll$") }}, 1)
 	}
 
 	if f := p.Method(pkgCache, "cacheHandler", "list"); c.NeedFunc("R14.2", f, handlerT+".list") {
 		g := ClosureWith(f, p.CallTo("(pkg/resource.LabelQueries).Matches"))
-		checkMatcher(g, "cache list filter closure", "*free:var:options.IDQuery", "*free:var:options.LabelQueries")
+		checkMatcher(g, "cache list filter closure", "*free:var:pkg/state.*Options.IDQuery", "*free:var:pkg/state.*Options.LabelQueries")
 
 		fl := p.Calls(f, "github.com/siderolabs/gen/xslices.Filter")
 		c.Check(len(fl) == 1 && StaticOrClosureCallee2(fl[0], 1) == g, "R14.2", FuncName(f)+" :: the filter closure is what xslices.Filter applies", fpos(f), "yes", "filter uses another predicate")
@@ -473,7 +480,7 @@ func runC14(c *Ctx) {
 			c.Unknown("R14.4", "matches: term.Value[0] sites", fpos(f), "anchor-unresolved: no index into term.Value")
 		}
 
-		c.NoReach("R14.4", "matches: non-numeric operand is indeterminate", f, p.EdgeSuccs(f, "false(call:pkg/resource/internal/compare.GetNumbers(*)#2)"), 2, ReturnsNonNil(0), CutSpec{})
+		c.NoReach("R14.4", "matches: non-numeric operand is indeterminate", f, p.EdgeSuccs(f, "false(call:pkg/resource/internal/compare.GetNumbers(*)#2)"), 1, ReturnsNonNil(0), CutSpec{})
 	}
 
 	if f := p.Method(pkgResource, "LabelOp", "isComparison"); c.NeedFunc("R14.4", f, "LabelOp.isComparison") {
